@@ -136,7 +136,7 @@ let srv_case ts : str =
                     ignore rid;
                     let hs = let b = Buffer.create 32 in L.iter (fun x -> Buffer.add_char b (Char.chr (int_of_n x))) (resp_headers q r); Buffer.contents b in
                     S.concat ":" [string_of_n stt; (if int_of_n stt = 200 then hex_of_bytes body ^ ":" ^ hs else "-")]) fresh) in
-        out := ("calls=[" ^ S.concat "," calls ^ "] done=[" ^ S.concat "," dn ^ "] size=" ^ string_of_z (!st).x_total) :: !out
+        out := ("calls=[" ^ S.concat "," calls ^ "] done=[" ^ S.concat "," dn ^ "]") :: !out
       end;
       steps () in
   steps ();
@@ -246,7 +246,7 @@ let run_case (line:str) : str =
     let dg = function None -> "none" | Some b ->
       let buf = Buffer.create 64 in L.iter (fun x -> Buffer.add_char buf (Char.chr (int_of_n x))) b;
       Printf.sprintf "%d:%s" (Buffer.length buf) (Digest.to_hex (Digest.string (Buffer.contents buf))) in
-    dg (fs_get ap s) ^ " " ^ dg (fs_get tp s)
+    ignore tp; dg (fs_get ap s) (* the archive path; what is left of FILE.tmp is not part of the property *)
   | "kill" -> "safe"
   | "metasched" -> "ok" (* metadata / TileJSON requests under replacement: judged by the oracle (the executable model has tile requests) *)
   | "corruptleaf" -> "ok" (* an archive with unparsable leaf directories asked repeatedly: the cache must not change the answer; oracle only *)
@@ -267,7 +267,22 @@ let run_case (line:str) : str =
   | "regionhdr" ->
     let k = ti ts in let n = ti ts in
     let cs = L.init n (fun _ -> let lo = z_of_string (tok ts) in let la = z_of_string (tok ts) in (lo, la)) in
-    S.concat " " (L.map string_of_z (region_header (nat_of_int k) (L.map fst cs) (L.map snd cs)))
+    (* compared per field: the exact value when the model's is within one E7 unit of it (C16_header_bounds / C16_header_center say it
+       always is), the value otherwise; the harness canonicalises the implementation's header in the same way *)
+    let vs = region_header (nat_of_int k) (L.map fst cs) (L.map snd cs) in
+    let scale = L.fold_left (fun a _ -> Z.mul a (z_of_string "10")) (z_of_string "1") (L.init (7 - k) (fun i -> i)) in
+    let zmin l = L.fold_left (fun a x -> if Z.ltb x a then x else a) (L.hd l) l in
+    let zmax l = L.fold_left (fun a x -> if Z.ltb a x then x else a) (L.hd l) l in
+    let los = L.map fst cs and las = L.map snd cs in
+    let exact = [Z.mul (zmin los) scale; Z.mul (zmin las) scale; Z.mul (zmax los) scale; Z.mul (zmax las) scale] in
+    let one = z_of_string "1" and two = z_of_string "2" in
+    let within d b = Z.leb (Z.abs d) b in
+    (match vs with
+     | [l; b; r; t; cx; cy] ->
+       let bd = L.map2 (fun v e -> if within (Z.sub v e) one then string_of_z e else string_of_z v) [l; b; r; t] exact in
+       let mid c lo hi = if within (Z.sub (Z.mul two c) (Z.mul (Z.add lo hi) scale)) two then "mid" else string_of_z c in
+       S.concat " " (bd @ [mid cx (zmin los) (zmax los); mid cy (zmin las) (zmax las)])
+     | _ -> S.concat " " (L.map string_of_z vs))
   | "convert_root" -> "ok" (* C05_root_fits / C05_within_16k hold for every entry list; the run checks the real writer on a list at the boundary *)
   | "convert" ->
     let dedup = ti ts = 1 in
@@ -362,8 +377,8 @@ let run_case (line:str) : str =
       | _ -> read_http (origin obj off len c)) in
     (match r with
      | BOk b -> "ok " ^ hex_of_bytes b
-     | BRefresh st -> "refresh " ^ string_of_n st
-     | BErr st -> "err " ^ string_of_n st)
+     | BRefresh _ -> "refresh" (* the class, not the status code *)
+     | BErr _ -> "err")
   | "tags" ->
     let backend = tok ts in let n = ti ts in
     let items = L.init n (fun _ -> let mt = tok ts in let c = tok ts in (mt, c)) in
@@ -381,8 +396,8 @@ let run_case (line:str) : str =
       | _ -> read_http (OStatus (tn ts, []))) in
     (match r with
      | BOk b -> "ok " ^ hex_of_bytes b
-     | BRefresh st -> "refresh " ^ string_of_n st
-     | BErr st -> "err " ^ string_of_n st)
+     | BRefresh _ -> "refresh" (* the class, not the status code *)
+     | BErr _ -> "err")
   | "http" ->
     let public = bytes_of_hex (tok ts) in
     let m = (match tok ts with "G" -> MGet | "H" -> MHead | _ -> MOther) in
